@@ -77,6 +77,8 @@ let () =
       let sb = node_of tree and aft = node_of after in
       let r = request_of req drv in
       bump ("method_" ^ string_of_chars r.meth);
+      (* hypothesis of the step-level theorems (C01_copy_is_walk): listings in OS order *)
+      if not (sorted_otree sb) then raise (Failure "the sandbox listing is not in the order the model assumes (sorted_tree)");
       (match response_of obs with
        | None -> bump "obs_panic"; Some "agree=0 spec=0 kf=- :: implementation panicked"
        | Some o ->
